@@ -470,6 +470,76 @@ def rule_BD17(rep, prog):
         rep.unknown(rid, "no early keep-buffering return found in _dispatch_operation_deliver_data")
 
 
+def rule_OD18(rep, prog):
+    rid = rep.rule("C14-OD18", "a barrier runs after the operations submitted before it have COMPLETED: _dispatch_operation_dispose delivers the operation's final (done) "
+                   "handler invocation before it leaves the fd_entry's barrier group - leaving first releases a pending dispatch_io_barrier, whose block is then "
+                   "queued ahead of the done handler", floor=1)
+    fn = prog.fn("_dispatch_operation_dispose")
+    rep.saw(fn)
+    dl = [c for c in calls_named(fn, "_dispatch_operation_deliver_data")]
+    lv = [c for c in calls_named(fn, "dispatch_group_leave") if fld_load(prog, fn, c.ops[0], "barrier_group") is not None]
+    if not dl or not lv:
+        rep.unknown(rid, "_dispatch_operation_dispose: final delivery / barrier-group leave not found (deliver=%d leave=%d)" % (len(dl), len(lv)))
+        return
+    for l in lv:
+        rep.require(rid, any(fn.dominates(d_, l) and d_ is not l for d_ in dl), l.loc, fn.name, "barrier-group-left-before-final-delivery",
+                    "_dispatch_operation_dispose leaves the barrier group before it has queued the operation's done handler: a dispatch_io_barrier submitted after "
+                    "this operation runs while the operation has not completed yet", sample={"leave": l.loc})
+
+
+def rule_AI19(rep, prog, srcdir):
+    rid = rep.rule("C14-AI19", "dispatch_io_close evaluated for every combination of the STOP flag and the channel's CLOSED / STOPPED bits: a stop request interrupts the "
+                   "channel unless it is already STOPPED (in particular after a plain close: `stop after close` is how in-flight operations of a closed channel are "
+                   "cancelled), a plain close is ignored when the channel is already closed or stopped", floor=8)
+    k = consts.get(["DISPATCH_IO_STOP", "DIO_CLOSED", "DIO_STOPPED"], srcdir=srcdir, unit="io")
+    fn = prog.fn("dispatch_io_close")
+    rep.saw(fn)
+    af = [l for l in fn.all_insts() if l.op == "load" and "atomic_flags" in prog.fields(l)]
+    stop = calls_named(fn, "_dispatch_io_stop")
+    closing = [c for c in fn.all_insts() if c.op == "call" and c.callee in ("dispatch_async", "dispatch_async_f", "_dispatch_retain")]
+    if not af or not stop or not closing:
+        rep.unknown(rid, "dispatch_io_close: flag loads / stop / close actions not found (%d/%d/%d)" % (len(af), len(stop), len(closing)))
+        return
+    for fl in (0, k["DISPATCH_IO_STOP"]):
+        for st in (0, k["DIO_CLOSED"], k["DIO_STOPPED"], k["DIO_CLOSED"] | k["DIO_STOPPED"]):
+            env = {l.id: st for l in af}
+            env[("a", 1)] = fl
+            hit, _e = concrete_walk(fn, env, lambda i: i in stop or i in closing)
+            got = "stop" if hit in stop else ("close" if hit is not None else "nothing")
+            want_ = ("stop" if not st & k["DIO_STOPPED"] else "nothing") if fl else ("close" if not st & (k["DIO_CLOSED"] | k["DIO_STOPPED"]) else "nothing")
+            rep.require(rid, got == want_, (hit.loc if hit is not None else fn.file), fn.name, "io-close-decision:%d:%d" % (fl, st),
+                        "dispatch_io_close(flags=%#x) on a channel with state bits %#x does `%s`, expected `%s`: a stop issued after a plain close must still interrupt "
+                        "the operations in flight (they complete with ECANCELED and the cleanup handler can run)" % (fl, st, got, want_),
+                        sample={"flags": fl, "state": st, "does": got})
+
+
+def rule_MP20(rep, prog):
+    rid = rep.rule("C14-MP20", "the stream and disk handlers re-check the channel for stop / error (_dispatch_io_get_error) on every operation they pick, before performing "
+                   "it, and complete an operation of a stopped channel themselves: the perform function's own ERR result only cleans up the stopped channel's "
+                   "operations and does not re-kick the stream for the other channels on the same descriptor", floor=2)
+    n = 0
+    for name, pick in (("_dispatch_stream_handler", "_dispatch_stream_pick_next_operation"), ("_dispatch_disk_handler", "_dispatch_disk_pick_next_operation")):
+        fn = prog.fn(name, required=False)
+        if fn is None:
+            continue
+        picks = calls_named(fn, pick)
+        acts = calls_named(fn, ("_dispatch_operation_perform", "_dispatch_disk_perform")) + \
+               [st for st in fn.all_insts() if st.op == "store" and prog.fields(st) & {"op", "cur_rq"} and st.ops[0][0] == "i"]
+        errs = calls_named(fn, "_dispatch_io_get_error")
+        if not picks:
+            continue
+        for pk in picks:
+            n += 1
+            rep.saw(fn)
+            bare = [a for a in acts if fn.inst_reaches(pk, a, avoid_insts=errs)]
+            rep.require(rid, bool(errs) and not bare, pk.loc, fn.name, "operation-started-without-stop-check:%s" % fn.name,
+                        "%s can go from picking an operation to starting it without calling _dispatch_io_get_error for it: an operation of a channel that was stopped "
+                        "meanwhile is performed (ERR), only that channel's operations are cleaned up and nothing resumes the stream - operations of another channel "
+                        "on the same descriptor, queued behind it, stall with their data never delivered" % fn.name, sample={"pick": pk.loc, "checks": len(errs)})
+    if n < 2:
+        rep.unknown(rid, "fewer than 2 pick sites found in the stream / disk handlers (%d)" % n)
+
+
 def rule_TB10(rep, prog):
     rid = rep.rule("C14-TB10", "what an operation that completes early hands back: a read that failed reports no data, a write that did NOT fail reports no unwritten "
                    "data, a write that failed (e.g. the channel was stopped) reports all of its data as unwritten - at every early-completion site alike; a read "
@@ -596,6 +666,12 @@ def run(rep, tier="quick", srcdir=None, only=None):
         rule_OD16(rep, prog)
     if want("C14-BD17"):
         rule_BD17(rep, prog)
+    if want("C14-OD18"):
+        rule_OD18(rep, prog)
+    if want("C14-AI19"):
+        rule_AI19(rep, prog, srcdir)
+    if want("C14-MP20"):
+        rule_MP20(rep, prog)
     if want("C14-OD12"):
         rule_OD12(rep, prog)
     if want("C14-MP13"):
